@@ -78,3 +78,9 @@ for rp in range(6):
   for op in range(4):
     add("C16.validate.r%d.o%d"%(rp,op),"VH_c16_validate",TBL,c16,{"roas":2},{"params":{"roas":3},"harness_s":2400},expect_reach=["end"],pins={"route_pfx":rp,"op":op},bounds="`roas` ROAs over 4 nested/unrelated IPv4 prefixes with symbolic max-length (valid range), AS (incl. 0) and one of 2 caches; one maintenance operation (none / withdraw announced / withdraw unknown / drop cache); route over 6 prefixes with 5 AS_PATH shapes and symbolic origin / local AS")
 add("C16.rtr_sessions","VH_c16_rtr_sessions",SRV,sc+["server/c16.go"],expect_reach=["end"],bounds="one cache: full response (2 records), incremental withdraw of a known or unknown record and re-announcement, second full response under the same or a different session id (session ids, serials and AS numbers symbolic)")
+c17=tc+["table/c17.go","table/c02.go","table/c03.go","table/c14.go"]
+add("C17.key_injective","VH_c17_key_injective",TBL,c17,{"segs":1},{"segs":1},expect_reach=["end"],bounds="two route targets of the three kinds (two-octet AS, IPv4, four-octet AS) with symbolic sub-type, transitivity, global and local admin")
+add("C17.import","VH_c17_import",TBL,c17,{"segs":1},{"segs":1},expect_reach=["end"],bounds="VRF with 2 import targets, route with 2 extended communities, all of the three kinds with symbolic fields incl. non-transitive ones")
+add("C17.membership","VH_c17_membership",TBL,c17,{"steps":3,"segs":1},{"steps":4,"segs":1},expect_reach=["end"],bounds="histories of `steps` membership announcements/withdrawals over 2 targets + default x 2 origin AS x 2 path-ids")
+add("C17.vpn_index","VH_c17_vpn_index",TBL,c17,{"steps":3,"segs":1},{"steps":4,"segs":1},expect_reach=["end"])
+add("C17.delete_vrf","VH_c17_delete_vrf",TBL,c17,{"params":{"segs":1},"unwind":2200},{"params":{"segs":1},"unwind":2200},merge=C3M,expect_reach=["end"])
